@@ -1019,3 +1019,117 @@ func returnsNewObject(fn *ssa.Function, depth int) bool {
 	})
 	return ok && n > 0
 }
+
+// presetHeadersSurviveInterim: a library effect the request path has to answer.  When the backend
+// sends an interim response (103 Early Hints, 100 Continue), httputil.ReverseProxy copies its headers
+// into rw.Header(), calls rw.WriteHeader(1xx) and then *clears that header map* — including whatever
+// the layers in front of the balancer had put there before proxying: the request/trace IDs (C16), the
+// headers plugin's response headers.  "Every response carries the configured ID headers" therefore
+// needs, in the writer the balancer hands to the reverse proxy, a mechanism that puts them back:
+//   - the writer has a Header method of its own (a promoted one returns the emptied map as is),
+//   - that method stores the entries of a header snapshot held in a field back into the map,
+//   - the snapshot is taken (Clone) from the client's writer where the wrapper is created, and
+//   - WriteHeader notes (a boolean field set on the status < 200 edge) that the map has been emptied.
+func (c *Ctx) presetHeadersSurviveInterim() {
+	p := c.P
+	rule := "preset-headers-survive-interim"
+	pr := c.proxyFn()
+	if pr == nil {
+		c.Missing(rule, "loadbalancer.(*LoadBalancer).proxyRequest")
+		return
+	}
+	var site ssa.CallInstruction
+	for _, ci := range callsIn(pr) {
+		if CalleeName(ci) == "(*net/http/httputil.ReverseProxy).ServeHTTP" {
+			site = ci
+		}
+	}
+	construct := p.FuncKey(pr) + "/ReverseProxy.ServeHTTP"
+	if site == nil {
+		c.Missing(rule, construct)
+		return
+	}
+	var w *Wrapper
+	if nt := namedOf(stripConv(site.Common().Args[1]).Type()); nt != nil {
+		for _, cand := range c.wrappers() {
+			if types.Identical(cand.Named, nt) {
+				w = cand
+			}
+		}
+	}
+	lost := "after relaying an interim response (103 Early Hints, 100 Continue) httputil.ReverseProxy empties the response header map, and nothing puts back what was set before proxying: the final response of such an exchange carries neither the request/trace-ID headers nor the headers plugin's response headers"
+	if w == nil {
+		c.Fail(rule, construct, p.InstrPos(site), "the reverse proxy writes straight to the client's writer: "+lost)
+		return
+	}
+	hm := w.Methods["Header"]
+	if hm == nil {
+		c.Fail(rule, construct, p.InstrPos(site), w.Key+" promotes Header() from the embedded writer: "+lost)
+		return
+	}
+	// the snapshot field: a field of type http.Header read in Header() and written into the map
+	snap := ""
+	restores := false
+	instrsOf(hm, func(in ssa.Instruction) {
+		if fa, ok := in.(*ssa.FieldAddr); ok {
+			if fr, ok := fieldRefOf(fa); ok && strings.HasPrefix(fr.Key(), w.Key+".") && QualType(namedOf(fa.Type().Underlying().(*types.Pointer).Elem())) == "http.Header" {
+				snap = fr.Key()
+			}
+		}
+		switch x := in.(type) {
+		case *ssa.MapUpdate:
+			if QualType(namedOf(x.Map.Type())) == "http.Header" {
+				restores = true
+			}
+		case ssa.CallInstruction:
+			switch CalleeName(x) {
+			case "(net/http.Header).Set", "(net/http.Header).Add", "maps.Copy":
+				restores = true
+			}
+		}
+	})
+	if snap == "" || !restores {
+		c.Fail(rule, construct, p.InstrPos(site), w.Key+".Header does not restore a snapshot of the headers set before proxying: "+lost)
+		return
+	}
+	// the snapshot is taken from the client's writer at creation
+	taken := false
+	for _, fn := range p.Funcs {
+		instrsOf(fn, func(in ssa.Instruction) {
+			if k, st := storeKey(in); k == snap {
+				if call, ok := stripConv(st.Val).(*ssa.Call); ok && CalleeName(call) == "(net/http.Header).Clone" {
+					taken = true
+				}
+			}
+		})
+	}
+	// WriteHeader notes the interim response
+	noted := false
+	if wh := w.Methods["WriteHeader"]; wh != nil {
+		sp := c.rwSpec(w)
+		sp.P = p
+		sp.Cond = func(in *ssa.If, fr *Frame) string { return "if " + p.Desc(in.Cond, fr) }
+		for _, t := range sp.Walk(wh) {
+			for i, it := range t.Items {
+				if !strings.HasPrefix(it.Label, "store ") || !strings.HasSuffix(it.Label, " := k:true") {
+					continue
+				}
+				for _, b := range t.Items[:i] {
+					if _, isIf := b.Instr.(*ssa.If); isIf {
+						if o, ok := c.condRel(b).Orient("param:", ""); ok && o.Pred == "" && o.Hi != posInf && o.Hi < 200 {
+							noted = true
+						}
+					}
+				}
+			}
+		}
+	}
+	switch {
+	case !taken:
+		c.Fail(rule, construct, p.InstrPos(site), "the header snapshot "+snap+" is never taken from the client's writer (Header().Clone()) where the wrapper is created: "+lost)
+	case !noted:
+		c.Fail(rule, construct, p.InstrPos(site), w.Key+".WriteHeader does not note an interim status (< 200), so Header() cannot know the map was emptied: "+lost)
+	default:
+		c.Pass(rule, construct, p.InstrPos(site), w.Key+" snapshots the headers set before proxying ("+snap+"), notes interim responses in WriteHeader and restores the snapshot in Header()")
+	}
+}
